@@ -2,10 +2,15 @@
 //   mode "measure":  c20_arena <model.xml> measure  -> prints "M <maxuse_arena> <ncon> <nefc> <nisland> <sizeof mjContact>"
 // For every narena in [lo,hi): m->narena = narena; mj_makeData; nstep x mj_step, each compared with the
 // same step on an ample-memory mjData started from the same integration state.
+#include <dlfcn.h>
+#include <setjmp.h>
+#include <signal.h>
 #include <stdint.h>
 #include <string.h>
+#include <ucontext.h>
 
 #include <string>
+#include <vector>
 
 #include <mujoco/mujoco.h>
 #include <mujoco/mjxmacro.h>
@@ -198,6 +203,97 @@ static int check_arena(const mjModel* m, const mjData* d, long pt, int step, Vgx
   return 0;
 }
 
+// ---- reference results (ample memory) cached by pre-step integration state
+struct RefEntry {
+  std::vector<mjtNum> pre, qpos, qvel;
+  int ncon, nefc, nisland;
+  std::vector<mjContact> con;
+};
+static std::vector<RefEntry> g_ref;
+
+static const RefEntry* reference(Scn* s, const mjData* d, long narena, VgxOut& out) {
+  const mjModel* m = s->mbig;
+  int ns = mj_stateSize(m, mjSTATE_INTEGRATION);
+  std::vector<mjtNum> pre(ns);
+  mj_getState(m, d, pre.data(), mjSTATE_INTEGRATION);
+  for (const RefEntry& e : g_ref) {
+    if (!memcmp(e.pre.data(), pre.data(), sizeof(mjtNum) * ns)) return &e;
+  }
+  mjData* dref = s->dref;
+  mj_resetData(m, dref);
+  mj_setState(m, dref, pre.data(), mjSTATE_INTEGRATION);
+  mj_step(m, dref);
+  if (dref->warning[mjWARN_CONTACTFULL].number || dref->warning[mjWARN_CNSTRFULL].number) {
+    out.violation(narena, "harness: reference run warned", "reference mjData is not ample");
+    return nullptr;
+  }
+  if (g_ref.size() >= 64) g_ref.erase(g_ref.begin() + 1, g_ref.begin() + 33);
+  RefEntry e;
+  e.pre = pre;
+  e.qpos.assign(dref->qpos, dref->qpos + m->nq);
+  e.qvel.assign(dref->qvel, dref->qvel + m->nv);
+  e.ncon = dref->ncon; e.nefc = dref->nefc; e.nisland = dref->nisland;
+  e.con.assign(dref->contact, dref->contact + dref->ncon);
+  g_ref.push_back(e);
+  return &g_ref.back();
+}
+
+// ---- in-process recovery from SIGSEGV etc. (rel variant only; under ASan the sanitizer owns the signal and the
+// runner attributes the crash by process exit)
+static sigjmp_buf g_env;
+static volatile sig_atomic_t g_armed = 0;
+static char g_sigdesc[256];
+#ifndef C20_ASAN
+static void on_signal(int sig, siginfo_t* si, void* uc_) {
+  if (!g_armed) { signal(sig, SIG_DFL); raise(sig); return; }
+  ucontext_t* uc = (ucontext_t*)uc_;
+  void* pc = (void*)uc->uc_mcontext.gregs[REG_RIP];
+  Dl_info info;
+  if (dladdr(pc, &info) && info.dli_fbase) {
+    const char* base = strrchr(info.dli_fname, '/');
+    snprintf(g_sigdesc, sizeof(g_sigdesc), "signal %d addr %p at %s+0x%lx %s", sig, si->si_addr,
+             base ? base + 1 : info.dli_fname, (unsigned long)((char*)pc - (char*)info.dli_fbase),
+             info.dli_sname ? info.dli_sname : "");
+  } else {
+    snprintf(g_sigdesc, sizeof(g_sigdesc), "signal %d addr %p at pc %p", sig, si->si_addr, pc);
+  }
+  g_armed = 0;
+  siglongjmp(g_env, 1);
+}
+#endif
+#ifdef C20_ASAN
+extern "C" void __sanitizer_set_death_callback(void (*cb)(void));
+static mjData* g_dwork = nullptr;
+static void on_death() {
+  // state of the work data at the time of the report (lets the check tell root causes apart)
+  if (g_dwork) {
+    char b[200];
+    int n = snprintf(b, sizeof(b), "VGXSTATE ne=%d nf=%d nl=%d nefc=%d ncon=%d nisland=%d\n", g_dwork->ne, g_dwork->nf,
+                     g_dwork->nl, g_dwork->nefc, g_dwork->ncon, g_dwork->nisland);
+    if (write(2, b, n)) {}
+  }
+}
+#endif
+static void install_signals() {
+#ifdef C20_ASAN
+  __sanitizer_set_death_callback(on_death);
+#endif
+#ifndef C20_ASAN
+  static char altstack[1 << 16];
+  stack_t ss;
+  ss.ss_sp = altstack; ss.ss_size = sizeof(altstack); ss.ss_flags = 0;
+  sigaltstack(&ss, nullptr);
+  struct sigaction sa;
+  memset(&sa, 0, sizeof(sa));
+  sa.sa_sigaction = on_signal;
+  sa.sa_flags = SA_SIGINFO | SA_ONSTACK | SA_NODEFER;
+  sigaction(SIGSEGV, &sa, nullptr);
+  sigaction(SIGBUS, &sa, nullptr);
+  sigaction(SIGFPE, &sa, nullptr);
+  sigaction(SIGILL, &sa, nullptr);
+#endif
+}
+
 static bool legit_error(const char* msg) {
   return strstr(msg, "mj_stackAlloc: out of memory, stack overflow") || strstr(msg, "could not allocate mjData arena") ||
          strstr(msg, "arena too small to allocate geom pair") || strstr(msg, "arena overflow in implicit effective metric");
@@ -208,7 +304,27 @@ static std::string run_point(long narena, VgxOut& out, Scn* s, bool fresh, bool 
 static void point(long narena, VgxOut& out, void* user) {
   Scn* s = (Scn*)user;
   bool nontriv = false;
-  std::string cls = run_point(narena, out, s, narena == 0, true, &nontriv);
+  std::string cls;
+  g_armed = 1;
+  if (sigsetjmp(g_env, 1) == 0) {
+    cls = run_point(narena, out, s, narena == 0, true, &nontriv);
+    g_armed = 0;
+  } else {
+    // a signal was raised inside the engine: report, re-initialise the work data
+    std::string key = std::string("signal inside mj_step: ") + g_sigdesc;
+    size_t a = key.find(" addr ");
+    size_t b = key.find(" at ");
+    std::string k2 = (a != std::string::npos && b != std::string::npos) ? key.substr(0, a) + key.substr(b) : key;
+    k2 += (s->dwork->ne + s->dwork->nf + s->dwork->nl > s->dwork->nefc) ? " [ne+nf+nl>nefc]" : "";
+    out.violation(narena, k2.c_str(), "narena=%ld: %s; ne=%d nf=%d nl=%d nefc=%d ncon=%d", narena, g_sigdesc, s->dwork->ne,
+                  s->dwork->nf, s->dwork->nl, s->dwork->nefc, s->dwork->ncon);
+    out.outcome(narena, "SIGNAL " + k2, true);
+    unguard(s->dwork, s->cap);
+    s->dwork->narena = s->cap;
+    s->dwork->pstack = s->dwork->pbase = 0;
+    mj_resetData(s->mbig, s->dwork);
+    return;
+  }
   if (narena != 0 && s->fresh_every > 0 && narena % s->fresh_every == 0) {
     bool nt2 = false;
     std::string cls2 = run_point(narena, out, s, true, false, &nt2);
@@ -242,18 +358,12 @@ static std::string run_point(long narena, VgxOut& out, Scn* s, bool fresh, bool 
     mj_resetData(m, d);
     guard_tail(d, s->cap);
   }
-  mjData* dref = s->dref;
-  mj_resetData(s->mbig, dref);
   std::string cls;
   bool nontriv = false;
   for (int step = 0; step < s->nstep; step++) {
     // reference: same integration state, ample memory
-    mj_copyState(s->mbig, d, dref, mjSTATE_INTEGRATION);
-    mj_step(s->mbig, dref);
-    if (dref->warning[mjWARN_CONTACTFULL].number || dref->warning[mjWARN_CNSTRFULL].number) {
-      out.violation(narena, "harness: reference run warned", "reference mjData is not ample");
-      break;
-    }
+    const RefEntry* dref = reference(s, d, narena, out);
+    if (!dref) break;
     int w0c = d->warning[mjWARN_CONTACTFULL].number, w0e = d->warning[mjWARN_CNSTRFULL].number;
     bool err = false;
     try {
@@ -299,9 +409,9 @@ static std::string run_point(long narena, VgxOut& out, Scn* s, bool fresh, bool 
       int j = 0, okc = 1;
       for (int i = 0; i < d->ncon && okc; i++) {
         const mjContact* c = d->contact + i;
-        while (j < dref->ncon && !(dref->contact[j].geom[0] == c->geom[0] && dref->contact[j].geom[1] == c->geom[1] &&
-                                   !memcmp(&dref->contact[j].dist, &c->dist, sizeof(mjtNum)) &&
-                                   !memcmp(dref->contact[j].pos, c->pos, 3 * sizeof(mjtNum)))) j++;
+        while (j < dref->ncon && !(dref->con[j].geom[0] == c->geom[0] && dref->con[j].geom[1] == c->geom[1] &&
+                                   !memcmp(&dref->con[j].dist, &c->dist, sizeof(mjtNum)) &&
+                                   !memcmp(dref->con[j].pos, c->pos, 3 * sizeof(mjtNum)))) j++;
         if (j >= dref->ncon) okc = 0;
         j++;
       }
@@ -312,7 +422,7 @@ static std::string run_point(long narena, VgxOut& out, Scn* s, bool fresh, bool 
     }
     if (!dwc && !dwe) {
       // untruncated: result must be bit-identical to the ample run
-      if (memcmp(d->qpos, dref->qpos, sizeof(mjtNum) * m->nq) || memcmp(d->qvel, dref->qvel, sizeof(mjtNum) * m->nv)) {
+      if (memcmp(d->qpos, dref->qpos.data(), sizeof(mjtNum) * m->nq) || memcmp(d->qvel, dref->qvel.data(), sizeof(mjtNum) * m->nv)) {
         out.violation(narena, "no warning but state differs from ample-memory run", "narena=%ld step %d", narena, step);
       }
       cls += "ok";
@@ -391,14 +501,19 @@ int main(int argc, char** argv) {
   }
   long lo = atol(argv[2]), hi = atol(argv[3]), stride = atol(argv[4]), batch = atol(argv[5]);
   Scn s;
-  m->narena = (mjtSize)(4 * (size_t)hi + (1 << 18));   // ample but modest (a 14 MB arena makes ASan re-poisoning slow)
+  m->narena = (mjtSize)(3 * (size_t)hi + (1 << 16));   // ample but modest (a 14 MB arena makes ASan re-poisoning slow)
   s.mbig = m;
   s.msmall = mj_copyModel(nullptr, m);
   s.dref = mj_makeData(m);
   s.cap = (size_t)hi + 4096;
   s.msmall->narena = (mjtSize)s.cap;
   s.dwork = mj_makeData(s.msmall);
+#ifdef C20_ASAN
+  g_dwork = s.dwork;
+#endif
   s.nstep = nstep;
   s.fresh_every = argc > 7 ? atol(argv[7]) : 251;
+  vgx_crash_stride = argc > 8 ? atol(argv[8]) : 1;
+  install_signals();
   return vgx_run(lo, hi, stride, batch, point, &s);
 }
